@@ -199,3 +199,64 @@ ob("C19", "K3.module_prepend", {"kind": R(0, 2), "infer": BOOL, "n": R(1, 1), "i
    funcs=["cdd.compound.gen_utils.gen_module", "cdd.compound.gen_utils.get_functions_and_classes", "cdd.shared.ast_utils.infer_imports", "cdd.shared.ast_utils.optimise_imports"],
    bound="gen_module with --prepend in %r and --imports-from-file content in %r (plain imports, relative imports, capitalised packages and `from __future__` lines in any order), "
          "import inference on/off, 3 emit kinds (solver-enumerated): the module and its rendered text compile, every requested import is present, __all__ == defined" % (PREPENDS, IMPORTS))(module_defines)
+
+
+# K4: each generated symbol, parsed back, has the interface of its source entry ---------------------------------------------------------
+ATTRS = (("a", "Optional[int]", "5", 5), ("b", "str", "'x y'", "x y"), ("c", "bool", "False", False), ("d", "float", "-0.5", -0.5), ("e", "Literal['p', 'q']", "'p'", "p"),
+         ("f", "int", "-3", -3))
+K4_KINDS = ("class_", "function", "argparse_function", "pydantic")
+
+
+def interface_preserved(kind, infer, mask):
+    import contextlib
+    import io
+
+    from chx.domain import ir_equiv
+    from cdd.compound.gen_utils import gen_module
+
+    chosen = [t for i, t in enumerate(ATTRS) if mask & (1 << i)]
+    if not chosen:
+        return ""
+    src = "class Src(object):\n    '''\n    Doc of it.\n\n" + "".join("    :cvar %s: the %s\n" % (n, n) for n, _, _, _ in chosen) + "    '''\n" + "".join(
+        "    %s: %s = %s\n" % (n, t, d) for n, t, d, _ in chosen)
+    emit_name = _pick(K4_KINDS, kind)
+    with contextlib.redirect_stdout(io.StringIO()):
+        try:
+            mod = gen_module(decorator_list=[], emit_and_infer_imports=infer, emit_call=False, emit_default_doc=False, emit_name=emit_name, functions_and_classes=None, imports="",
+                             input_mapping_it=iter([("Alpha", ast.parse(src).body[0])]), name_tpl="{name}Cfg", no_word_wrap=True, parse_name="class", prepend=None)
+        except Exception as e:
+            return "gen_module raised %s: %s" % (type(e).__name__, e)
+    syms = [nd for nd in mod.body if isinstance(nd, (ast.ClassDef, ast.FunctionDef))]
+    if len(syms) != 1:
+        return "expected one generated symbol, found %d" % len(syms)
+    from cdd.shared.source_transformer import to_code
+
+    node = ast.parse(to_code(syms[0])).body[0]  # what the written file contains
+    try:
+        if emit_name == "class_":
+            import cdd.class_.parse as P
+
+            back = P.class_(node)
+        elif emit_name == "pydantic":
+            import cdd.pydantic.parse as P
+
+            back = P.pydantic(node)
+        elif emit_name == "function":
+            import cdd.function.parse as P
+
+            back = P.function(node)
+        else:
+            import cdd.argparse_function.parse as P
+
+            back = P.argparse_ast(node)
+    except Exception as e:
+        return "the generated %s cannot be parsed back: %s: %s" % (emit_name, type(e).__name__, e)
+    want = {"params": OrderedDict((n, {"typ": t, "doc": "the %s" % n, "default": v}) for n, t, _, v in chosen), "returns": None, "doc": "Doc of it."}
+    return ir_equiv(want, back, types=True, defaults=True, docs=True, header=False, returns=False)
+
+
+ob("C19", "K4.interface_preserved", {"kind": R(0, len(K4_KINDS) - 1), "infer": BOOL, "mask": R(1, 2 ** len(ATTRS) - 1)}, T=2400, tpath=60,
+   funcs=["cdd.compound.gen_utils.gen_module", "cdd.compound.gen_utils.get_functions_and_classes", "cdd.class_.parse.class_", "cdd.function.parse.function",
+          "cdd.argparse_function.parse.argparse_ast", "cdd.pydantic.parse.pydantic"],
+   bound="one source class with ANY non-empty subset of the attributes %r, emit kind class/function/argparse/pydantic, import inference on/off (solver-enumerated): the generated symbol, "
+         "rendered to text and parsed back with the matching parser, has the names, order, types, defaults and descriptions of the source entry" % ([(n, t, d) for n, t, d, _ in ATTRS],))(interface_preserved)
